@@ -32,6 +32,10 @@ func (cs ClientState) GetLatestHeight() exported.Height {
 }
 
 func (cs ClientState) Validate() error {
+	// the header's height is the height of the first consensus state; genesis validation rejects a zero height
+	if cs.Header.Height.RevisionHeight == 0 {
+		return sdkerrors.Wrap(ErrInvalidGenesisBlock, "header height cannot be zero")
+	}
 	return cs.Header.ValidateBasic()
 }
 
